@@ -29,6 +29,11 @@ def _drop_op(sched, j):
     s = copy.deepcopy(sched)
     del s["ops"][j]
     for op in s["ops"]:
+        if op.get("stop_share") is not None:
+            if op["stop_share"] == j:
+                op.pop("stop_share")
+            elif op["stop_share"] > j:
+                op["stop_share"] -= 1
         f = op["f"]
         if "res" in f:
             a, k = f["res"]
@@ -70,6 +75,7 @@ def shrink(sched, prop, inv, first_out, max_evals=600):
         best["faults"] = []
         best["fault_plan"] = []
         best["world"]["clock"] = "normal"
+    best["alloc"] = any(f["kind"] == "alloc" for f in best["faults"])
     o = _fails(best, prop, inv, budget)
     if o is None:
         # freezing changed behaviour: keep the original
@@ -246,6 +252,57 @@ def shrink(sched, prop, inv, first_out, max_evals=600):
                     break
                 c = copy.deepcopy(best)
                 c["world"]["solvers"][i]["cls"] = name
+                if attempt(c):
+                    changed = True
+                    break
+        # shorter horizon (placements are clamped to it by the executor)
+        for j in range(len(best["ops"])):
+            op = best["ops"][j]
+            n = op.get("horizon", 0)
+            if op["op"] == "step" or n <= 1:
+                continue
+            for n2 in (1, 2, n // 2):
+                if n2 < n:
+                    c = copy.deepcopy(best)
+                    o2 = c["ops"][j]
+                    o2["horizon"] = n2
+                    for pl in o2.get("tsave", []):
+                        if "i" in pl:
+                            pl["i"] = min(pl["i"], n2)
+                        if "n" in pl:
+                            pl["n"] = min(pl["n"], n2)
+                    st = o2.get("stop") or {}
+                    if isinstance(st.get("tottime"), dict) and "i" in st["tottime"]:
+                        st["tottime"]["i"] = min(st["tottime"]["i"], n2)
+                    if "maxit" in st:
+                        st["maxit"] = min(st["maxit"], n2 + 1)
+                    if attempt(c):
+                        changed = True
+                        break
+        # real/hybrid -> stub world
+        if best["world"]["mode"] != "stub":
+            for rhs, model in (("linear", {"kind": "convection", "a": fhex(1.0)}), ("quadratic", {"kind": "burgers"})):
+                c = copy.deepcopy(best)
+                w = c["world"]
+                n = min(w["mesh"]["ncell"], 4)
+                w["mode"] = "stub"
+                w["model"] = model
+                w["mesh"] = {"kind": "uni", "ncell": n, "length": fhex(n * 0.125)}
+                w["stub"] = {"rhs": rhs, "lam": fhex(-0.25), "mu": fhex(1.0)}
+                w["ticks"] = {"H": fhex(0.0625), "bp": [], "m": [fhex(1.0)], "w": [[fhex(1.0)] * n]}
+                w.pop("num", None)
+                for f in w["fields"]:
+                    f["base"], f["amp"] = fhex(1.0), fhex(0.5)
+                for op in c["ops"]:
+                    for e in (op.get("mon") or {}).values():
+                        if e.get("type", "") == "data_average" or "data" in e:
+                            e["type"] = "residual"
+                            e.pop("data", None)
+                    if "data_average" in (op.get("mon") or {}):
+                        op["mon"]["residual"] = op["mon"].pop("data_average")
+                        op["mon"]["residual"].pop("data", None)
+                for sv in w["solvers"]:
+                    sv.pop("cmon", None)
                 if attempt(c):
                     changed = True
                     break
